@@ -95,6 +95,7 @@ type Obligation struct {
 	relaxed bool
 	refute  *Term
 	parts   []*Term // conjuncts of the goal that may be discharged separately (one per return path)
+	blk     *ssa.BasicBlock   // block of the verified function in which the obligation arises (nil: after the body)
 	partBlk []*ssa.BasicBlock // return block of each part: hypotheses recorded in blocks that cannot reach it are left out of that part's query
 	partIdx int     // >0: query only parts[partIdx-1]
 	Relaxed bool // counterexample found only after dropping quantified hypotheses
@@ -798,7 +799,7 @@ func (cx *Ctx) newObligation(kind, label, clause, pos string, reach, goal *Term,
 		name = fmt.Sprintf("%s#%d", base, n)
 	}
 	o := &Obligation{Name: name, Kind: kind, Label: label, Func: cx.base(), Props: props, Pos: pos, Clause: clause,
-		mark: cx.w.b.Mark(), nAssume: len(cx.assumes), reach: reach, goal: goal, cx: cx, Bounded: cx.bounded}
+		mark: cx.w.b.Mark(), nAssume: len(cx.assumes), reach: reach, goal: goal, cx: cx, Bounded: cx.bounded, blk: cx.curBlk}
 	if isTrue(goal) || isFalse(reach) {
 		o.Trivial = true
 	}
@@ -919,7 +920,11 @@ func (o *Obligation) queryLocked(getModel bool, hyp *Term) string {
 	var body strings.Builder
 	di := 0
 	var ancestors map[*ssa.BasicBlock]bool
+	target := o.blk
 	if o.partIdx > 0 && o.partIdx-1 < len(o.partBlk) && o.partBlk[o.partIdx-1] != nil {
+		target = o.partBlk[o.partIdx-1]
+	}
+	if target != nil && !o.IsCover {
 		ancestors = map[*ssa.BasicBlock]bool{}
 		var up func(x *ssa.BasicBlock)
 		up = func(x *ssa.BasicBlock) {
@@ -931,7 +936,7 @@ func (o *Obligation) queryLocked(getModel bool, hyp *Term) string {
 				up(p)
 			}
 		}
-		up(o.partBlk[o.partIdx-1])
+		up(target)
 	}
 	for i := 0; i < o.nAssume; i++ {
 		a := cx.assumes[i]
